@@ -4,6 +4,7 @@ package roaring
 
 import (
 	"bytes"
+	"encoding/base64"
 
 	"github.com/RoaringBitmap/roaring/v2/internal/vsym"
 )
@@ -112,7 +113,13 @@ func VerifC10Prefix() {
 		p = vsym.Choice(len(data)) // prefix length 0..len-1
 	}
 	b := NewBitmap()
-	e := vDecode(vsym.Param("rd"), b, data[:p:p])
+	var e error
+	if vsym.Param("rd") == 6 {
+		// the text entry point: the prefix as (padded) base64
+		_, e = b.FromBase64(base64.StdEncoding.EncodeToString(data[:p:p]))
+	} else {
+		e = vDecode(vsym.Param("rd"), b, data[:p:p])
+	}
 	vsym.Assert(e != nil, "prefix-rejected")
 	vsym.Reach("end")
 }
